@@ -172,6 +172,13 @@ func runTwin(job *NodeJob) ([]any, error) {
 func runNodeJob(job *NodeJob, out *bufio.Writer) error {
 	twin, err := runTwin(job)
 	if err != nil {
+		if strings.Contains(err.Error(), "PANIC in BeginBlock") || strings.Contains(err.Error(), "PANIC in EndBlock") {
+			// the never-stopped node halts on this history: an observation for the trace specification, not a harness failure
+			bz, _ := json.Marshal(M{"ev": "twinfail", "run": job.ID, "upgradeAt": job.UpgradeAt, "err": err.Error()})
+			out.Write(bz)
+			out.WriteByte('\n')
+			return nil
+		}
 		return err
 	}
 	// a second twin that never sees the upgrade plan: the custom modules' stores must be the same with and without the upgrade
